@@ -41,10 +41,13 @@ SUPPRESS = {
 
 # narrower suppressions: a branch whose condition is the result of one of the listed calls, in the listed function only
 SUPPRESS_COND = {
-    'br_ecdsa_i15_sign_raw': (('br_i15_iszero', 'br_i15_sub'), ('sk.x',),
+    'br_ecdsa_i15_sign_raw': (('br_i15_iszero', 'br_i15_sub', 'br_i15_decode_mod'), ('sk.x',),
                               'RFC 6979 3.2 step h.3: a candidate nonce that is 0 or >= q is discarded and the next one drawn; the branch reveals only that a '
-                              'candidate was rejected (probability < 2^-32 per candidate on the supported curves), nothing about the nonce that is used'),
-    'br_ecdsa_i31_sign_raw': (('br_i31_iszero', 'br_i31_sub'), ('sk.x',), 'same loop in the i31 signer'),
+                              'candidate was rejected (probability < 2^-32 per candidate on the supported curves), nothing about the nonce that is used.  '
+                              'br_i15_decode_mod / br_i15_iszero on the private key itself: "This also checks that the private key is well-defined (not zero, '
+                              'and less than the curve order)" (ecdsa_i15_sign_raw.c) - every well-formed key takes the same side, the branch tells a malformed '
+                              'key from a usable one and nothing else (the loop-carried comparison state of decode_mod is secret, its final verdict is not)'),
+    'br_ecdsa_i31_sign_raw': (('br_i31_iszero', 'br_i31_sub', 'br_i31_decode_mod'), ('sk.x',), 'same loop and same key well-formedness test in the i31 signer'),
 }
 
 # functions whose *return value* is the public accept/reject verdict by their API contract (bearssl_aead.h: "returns 1 on success")
@@ -354,6 +357,7 @@ def positive_controls(chk):
         'ctbad_table': ([X(0)], {(0,): whole('s')}, 'load address'),
         'ctbad_mux': ([SEC('ctl'), BOT, BOT], {}, 'branch'),
         'ctbad_memcmp': ([X(0), X(1)], {(0,): whole('s')}, 'call to non-CT memcmp'),
+        'ctbad_loop_carried': ([X(0), X(1), BOT], {(0,): whole('s')}, 'branch'),
         'ctgood_eq': ([X(0), X(1), BOT], {(0,): whole('s')}, None),
     }
     for fn, (args, rules, sink) in expect.items():
@@ -363,7 +367,7 @@ def positive_controls(chk):
         kinds = sorted(set(k[3] for k in eng.alarms))
         if (sink is None and kinds) or (sink is not None and sink not in kinds):
             raise AnalysisBroken('positive control %s: expected %s, engine reported %s' % (fn, sink, kinds))
-    chk.count('positive_controls_fired', 4)
+    chk.count('positive_controls_fired', 5)
     chk.count('negative_controls_quiet', 1)
 
 
